@@ -3,6 +3,7 @@ package scen
 import (
 	"encoding/json"
 	"fmt"
+	datastore "github.com/ipfs/go-datastore"
 	"strings"
 	"sync"
 
@@ -105,6 +106,30 @@ func (w *C10World) MonitorEvents() {
 		e, ok := evt.(stores.EventReplicated)
 		if !ok {
 			return
+		}
+		// the heads the store would announce or reload from are already in its cache
+		cached := map[string]bool{}
+		for _, k := range []string{"_remoteHeads", "_localHeads"} {
+			raw, err := w.SV.Cache().Get(bg, datastore.NewKey(k))
+			if err != nil {
+				continue
+			}
+			var hs []*entry.Entry
+			if json.Unmarshal(raw, &hs) == nil {
+				for _, h := range hs {
+					if h != nil {
+						cached[h.Hash.String()] = true
+					}
+				}
+			}
+		}
+		for _, h := range w.SV.OpLog().Heads().Slice() {
+			if !cached[h.GetHash().String()] {
+				w.mu.Lock()
+				w.pending = append(w.pending, explore.Violation{Signature: "replicated-event-ahead-of-cached-heads",
+					Detail: fmt.Sprintf("EventReplicated is out while head %s of the log is in neither cached head list", w.Name(h.GetHash()))})
+				w.mu.Unlock()
+			}
 		}
 		view := "," + w.VictimView() + ","
 		for _, en := range e.Entries {
